@@ -524,7 +524,8 @@ def bounded_checks(tier, seed):
                         '--corpus'], capture_output=True, text=True, timeout=1800,
                        env=dict(os.environ, PYTHONPATH=repo), cwd=repo)
     line = next((l for l in reversed(p.stdout.splitlines()) if l.startswith('[')), None)
-    rule = ('4 module-dependency DAGs x {1, 3} workers; every compile job completes only when it is waited for; the '
+    rule = ('4 module-dependency DAGs x {1, 3} workers, plus 3 libraries that list only their top-level object (the rest is '
+            'resolved through the builder source directory); every compile job completes only when it is waited for; the '
             'property is checked at every submission and at link time')
     if line is None:
         return [{'name': 'native/driver', 'cases': 0, 'violation': False, 'error': p.stderr[-600:], 'rule': rule}]
